@@ -22,6 +22,7 @@ func runC11(e *Env) error {
 	r.Rule = "includer/included pairs over 4 variable names: each name independently unset / set in the context / set by the includer before the include; every combination of with / only / ignore missing (and sandboxed with an all-allowing policy), " +
 		"static and computed names, the include standing at top level, in a for loop, in a block, in a macro, in a nested include; the included template prints its view of every name, then sets every name, runs a loop over them, defines a macro and a block; " +
 		"chains of 1-3 includes each standing in 0-2 nested for loops (list, map, string, range; key variable or not; 1-3 elements; bodies from the bare include tag to text/print/comment/if/set/block around it) where every template prints all seven loop counters and every loop variable before, inside and after its loops; " +
+		"every include tag (7 kinds of target × with / only / ignore missing / sandboxed) run N times in one scope (loop over data / range, nested loops, block / if in the loop, macro body, included template, written out; N on a ladder up to 1025) followed by one include of every kind and the includer's probes, chains of includes up to 300 levels deep, every such case rendered twice on one engine; " +
 		"oracles (implementation-only): the included view equals the scope rule, the includer's probes after the include equal the probes before it, ignore-missing only forgives a missing template; plus the Lean pipeline; " +
 		"non-trivial = included template exists and at least one name is visible; distinct by template set + context"
 	view := func() string {
@@ -153,6 +154,10 @@ func runC11(e *Env) error {
 	}
 	// (s5) chains of includes standing in for loops: `loop` and the loop variables are read across the include boundary
 	if err := c11LoopScope(e); err != nil {
+		return err
+	}
+	// (s6) the same include tag run many times in one scope, and chains of includes many levels deep
+	if err := c11Many(e); err != nil {
 		return err
 	}
 	n := e.N(1200, 60000)
